@@ -64,6 +64,9 @@ CurvedIn(fam, rule, type, t, lin, cur, noff) ==
                        THEN Assert(FALSE, <<"ambiguous curved weight comparison", t, A, Bhi, Blo, noff>>)
                        ELSE v <= 0
 
+\* a per-dimension bound never needs to exceed a non-negative level limit (WithinLimits filters the rest anyway)
+ClipLim(b, ll, j) == IF ll # <<>> /\ ll[j] >= 0 /\ ll[j] < b THEN ll[j] ELSE b
+
 \* largest index i (at most 60) with Pred(0..i) true, for monotone Pred; -1 if Pred(0) fails
 RECURSIVE LastTrue(_, _)
 LastTrue(Pred(_), i) == IF i > 60 THEN 60 ELSE IF Pred(i) THEN LastTrue(Pred, i + 1) ELSE i - 1
@@ -87,13 +90,13 @@ SelectTensors(fam, rule, d, depth, type, aw, ll) ==
     ELSE IF type \in LevelTypes THEN
         LET lin  == IF aw = <<>> THEN [j \in 1..d |-> 1] ELSE aw
             noff == depth * MinOf(lin)
-            bnd  == [j \in 1..d |-> LET P(i) == lin[j] * EOf(fam, rule, type, i) <= noff IN LastTrue(P, 0)]
+            bnd  == [j \in 1..d |-> LET P(i) == lin[j] * EOf(fam, rule, type, i) <= noff IN ClipLim(LastTrue(P, 0), ll, j)]
         IN {t \in BoxUpTo(d, bnd) : WithinLimits(t, ll) /\ SumSeq([j \in 1..d |-> lin[j] * EOf(fam, rule, type, t[j])]) <= noff}
     ELSE IF type \in HyperbolicTypes THEN
         \* exponents are weights / min weight: exact only when all weights are equal (or absent)
         IF aw # <<>> /\ \E j \in 1..d : aw[j] # aw[1]
         THEN Assert(FALSE, "hyperbolic selection with unequal weights is not covered by the exact specification")
-        ELSE LET bnd == [j \in 1..d |-> LET P(i) == 1 + EOf(fam, rule, type, i) <= depth IN LastTrue(P, 0)]
+        ELSE LET bnd == [j \in 1..d |-> LET P(i) == 1 + EOf(fam, rule, type, i) <= depth IN ClipLim(LastTrue(P, 0), ll, j)]
              IN {t \in BoxUpTo(d, bnd) : WithinLimits(t, ll) /\ ProdSeq([j \in 1..d |-> 1 + EOf(fam, rule, type, t[j])]) <= depth}
     ELSE \* curved
         LET lin  == IF aw = <<>> THEN [j \in 1..d |-> 1] ELSE SubSeq(aw, 1, d)
@@ -103,7 +106,7 @@ SelectTensors(fam, rule, d, depth, type, aw, ll) ==
             cap  == 2 * depth + 6
             In(t) == WithinLimits(t, ll) /\ CurvedIn(fam, rule, type, t, lin, cur, noff)
             unit(j, i) == [m \in 1..d |-> IF m = j THEN i ELSE 0]
-            bnd  == [j \in 1..d |-> LET P(i) == CurvedIn(fam, rule, type, unit(j, i), lin, cur, noff) IN LastTrue(P, 0)]
+            bnd  == [j \in 1..d |-> LET P(i) == CurvedIn(fam, rule, type, unit(j, i), lin, cur, noff) IN ClipLim(LastTrue(P, 0), ll, j)]
         IN IF lower THEN {t \in BoxUpTo(d, bnd) : In(t)}
            ELSE LET origin == [j \in 1..d |-> 0]
                     reg == Grow({origin}, {origin}, In, cap)
